@@ -26,6 +26,75 @@ ENTRIES = [
 TAGIFIABLE_KINDS = {"TAG", "JSXTAG", "TAGIFIABLE_ONLY", "TAGIFIABLE_REPR"}
 
 
+def builder_adds(eff: List[Any]) -> List[Dict[str, Any]]:
+    """What one iteration adds to a fresh local list that is being built (instead of editing the copy in place):
+    {'list': B, 'where': 'end'|'front', 'one': v} for append(v) / extend([v]) / B[:0] = [v] / insert(0, v),
+    {'list': B, 'where': .., 'many': vs} when a whole list of nodes is added."""
+    out: List[Dict[str, Any]] = []
+    for e in eff:
+        if not isinstance(e.target, SList):
+            continue
+        where = None
+        val: Any = None
+        single = False
+        if e.kind == "mutcall" and e.key == "append" and e.value:
+            where, val, single = "end", e.value[0], True
+        elif e.kind == "mutcall" and e.key in ("extend", "__iadd__") and e.value:
+            where, val = "end", e.value[0]
+        elif e.kind == "mutcall" and e.key == "insert" and e.value and len(e.value) == 2 and e.value[0] == 0 and not isinstance(e.value[0], bool):
+            where, val, single = "front", e.value[1], True
+        elif e.kind == "store_slice" and isinstance(e.key, tuple) and e.key[0] in (None, 0) and e.key[1] == 0 and not isinstance(e.key[1], bool):
+            where, val = "front", e.value
+        else:
+            continue
+        if not single:
+            its = val.items if isinstance(val, SList) and val.mode == "concrete" else list(val) if isinstance(val, (list, tuple)) else None
+            if its is not None and len(its) == 1 and not isinstance(its[0], SSplat):
+                val, single = its[0], True
+            elif its is not None:
+                out.append({"list": e.target, "where": where, "other": val, "effect": e})
+                continue
+        out.append({"list": e.target, "where": where, ("one" if single else "many"): val, "effect": e})
+    return out
+
+
+def builder_is_result(ctx: Ctx, I: Interp, rule: str) -> None:
+    """Builder form of TagList.tagify: the list that the loop fills is what the returned copy holds, the copy is a copy of self,
+    and the direction of the loop matches where the nodes are added (reversed <-> at the front)."""
+    prog = ctx.prog
+    where = f"{CORE}:TagList.tagify"
+    cfg = Config()
+    cfg.opaque_all = True
+    cfg.coarse_counts = True
+
+    def mk(run: Any):
+        s = SObj("self", {"TAGLIST"})
+        run.__dict__["s"] = s
+        return ({"self": s}, s)
+
+    n = 0
+    for l in I.run_function(CORE, "TagList.tagify", mk, cfg):
+        if l.kind != "return":
+            continue
+        n += 1
+        s = l.run.__dict__["s"]
+        v = l.value
+        is_copy = isinstance(v, SObj) and v.origin == "new" and v.meta.get("copy_of") is s
+        data = [e for e in l.effects if e.kind == "store_attr" and e.target is v and e.key == "data"]
+        adds = [a for a in builder_adds([e for e in l.effects if e.__dict__.get("in_loop") is not None])]
+        lists = {id(a["list"]) for a in adds}
+        okd = is_copy and len(data) == 1 and isinstance(data[0].value, SList) and lists == {id(data[0].value)}
+        ctx.check(bool(okd), rule, "the list the loop builds becomes the data of the returned copy of self", where,
+                  f"returns {short(v)} with data := {short(data[0].value) if data else None}",
+                  "TagList.tagify builds the expanded nodes in a list that is not what the returned copy holds (or does not return a copy of the list)")
+        recs = [r for r in l.run.loops if r.fn_qual.endswith("TagList.tagify")]
+        rev = bool(recs) and (getattr(recs[0].iter_value, "iter_descr", None) or (None,))[0] == "reversed"
+        wh = {a["where"] for a in adds}
+        ctx.check(wh == ({"front"} if rev else {"end"}), rule, "nodes are added at the end of the new list in a forward loop (at the front in a reversed one)", where,
+                  f"{'reversed' if rev else 'forward'} loop adds at {sorted(wh)}", "the expanded nodes are collected in the wrong order for the direction of the loop")
+    ctx.min_count("TagList.tagify returning paths (builder form)", n, 1)
+
+
 def tagify_table(ctx: Ctx, I: Interp) -> bool:
     """C08.2b / C09.2: per child kind, what TagList.tagify stores into its copy."""
     prog = ctx.prog
@@ -41,6 +110,7 @@ def tagify_table(ctx: Ctx, I: Interp) -> bool:
 
     ok_all = True
     seen = set()
+    builder_seen: List[bool] = []
     for l in I.run_function(CORE, "TagList.tagify", mk, cfg):
         rec = getattr(l.run, "stop_loop_record", None)
         if rec is None:
@@ -61,6 +131,32 @@ def tagify_table(ctx: Ctx, I: Interp) -> bool:
             cp = e.target
         free = [a for a in l.atoms if isinstance(a[0], tuple) and a[0][0] in ("len-cmp", "count", "cmp", "eq", "truthy", "same")]
         cond = f" when {free[0][0][0]}={free[0][1]}" if free else ""
+        adds = builder_adds(eff)
+        in_place = [e for e in stores if not isinstance(e.target, SList)]
+        if adds and not in_place:
+            # builder form: every child contributes its nodes to a new list (checked once: that list becomes the result)
+            if not builder_seen:
+                builder_seen.append(True)
+                builder_is_result(ctx, I, "C08.copy")
+            for k in sorted(child.kinds):
+                seen.add(k)
+                a = adds[0] if len(adds) == 1 else {}
+                one, many = a.get("one"), a.get("many")
+                if k in TAGIFIABLE_KINDS:
+                    good = (one is not None and _derives_from_tagify(one, child)) or (many is not None and _derives_from_tagify(many, child))
+                    what = f"a {k} child contributes the result of its tagify()"
+                    msg = f"a tagifiable child of kind {k} does not contribute its tagify() result to the list returned by tagify(){cond}"
+                elif k in META_KINDS:
+                    good = isinstance(one, SObj) and one.meta.get("copy_of") is child and one.origin == "new"
+                    what = f"a {k} child contributes copy(child)"
+                    msg = f"a metadata node ({k}) is shared between the original and the list returned by tagify(){cond}"
+                else:
+                    good = one is child
+                    what = f"a {k} child (immutable text / self-rendering object) is kept"
+                    msg = f"a child of kind {k} is dropped or rewritten by tagify()"
+                ok_all &= ctx.check(bool(good), "C08.copy", what, where, f"{k} child adds {[short(x.get('one', x.get('many', x.get('other')))) for x in adds]}{cond}", msg,
+                                    witness="x = div(br()); y = x.tagify(); y.children[0].add_class('a'); str(x)")
+            continue
         for k in sorted(child.kinds):
             seen.add(k)
             if k in TAGIFIABLE_KINDS:
